@@ -293,10 +293,16 @@ def handle (j : Json) : Except String Verdict := do
         let (backSig, _) := backendC03 fields rows.length ((getOpt j "backends").getD Json.null)
         pure (if wfAll && backSig.isNone then "na" else "fail")
       else pure "na" : Except String String)
+    -- structural validity alone (Spec.WFS, without the type-equality clause): what the C16 / C05 clause below is about
+    let wfsBad ← (if cls == "ok" then do
+        let iarrs ← (← getArr impl "ok").toList.mapM arrOfJson
+        pure (!(iarrs.length == fields.length &&
+          (fields.zip iarrs).all (fun (f, a) => SaModel.Spec.WFS f a && (decodeAll a).length == rows.length)))
+      else pure false : Except String Bool)
     -- a malformed call stream that is ACCEPTED with arrays that are not well formed is a failure that was not reported
     -- as an error (C16) and an accepted unrepresentable input (C05): finding C16-map-key-value-alternation
-    let c16 := if anyMalformed && c03 == "fail" then "fail" else c16
-    let c05 := if anyMalformed && c03 == "fail" then "fail" else c05
+    let c16 := if anyMalformed && wfsBad then "fail" else c16
+    let c05 := if anyMalformed && wfsBad then "fail" else c05
     return { agree := false, spec := [("C16", c16), ("C05", c05), ("C01", "na"), ("C03", c03), ("C18", "na")], tags := tags,
              sig := if c03 == "fail" then s!"build/C03/accepted-by-impl-only/model={model.cls}" else s!"build/class/model={model.cls}/impl={cls}",
              why := s!"outcome class: model {model.cls} ({repr model.ann}), implementation {cls}: {(impl.getObjVal? cls).toOption.getD Json.null}" }
@@ -378,8 +384,12 @@ def handle (j : Json) : Except String Verdict := do
     let c03 := if wfAll && backSig.isNone then "pass" else "fail"
     let tags := backTags ++ tags
     -- … and a malformed stream accepted with such arrays is also a C16 / C05 failure (see above)
-    let c16 := if anyMalformed && !wfAll && !fields.any hasFsb0 then "fail" else c16
-    let c05 := if anyMalformed && !wfAll && !fields.any hasFsb0 then "fail" else c05
+    -- (structural validity, Spec.WFS: a column of another data type than declared — the type clause of Spec.WF — is C03's
+    -- matter alone; thorough tier of C05, vp run #6: the known finding C03-map-entries-metadata met a malformed stream)
+    let wfsAll := iarrs.length == fields.length &&
+      (fields.zip iarrs).all (fun (f, a) => SaModel.Spec.WFS f a && (decodeAll a).length == rows.length)
+    let c16 := if anyMalformed && !wfsAll && !fields.any hasFsb0 then "fail" else c16
+    let c05 := if anyMalformed && !wfsAll && !fields.any hasFsb0 then "fail" else c05
     let badCol := firstNotWf.getD 0
     -- a column that is structurally valid and of the right length but of ANOTHER data type: name the aspect
     let cul := match fields[badCol]?, iarrs[badCol]? with
